@@ -124,6 +124,7 @@ class Ctx:
         out = open(outp, errors="replace").read()
         st = parse_tlc_stats(out)
         st.update({"module": module, "tag": tag, "rc": rc, "wall_s": round(time.time() - t, 1)})
+        log("[%6.1fs] tlc %s: %d distinct states, %d transitions, %.1fs" % (time.time() - self.t0, tag, st["distinct"], st["generated"], st["wall_s"]))
         self.tlc_stats["runs"].append({k: st[k] for k in ("tag", "generated", "distinct", "depth", "rc", "wall_s")})
         self.tlc_stats["states"] += st["distinct"]
         self.tlc_stats["transitions"] += st["generated"]
@@ -131,14 +132,53 @@ class Ctx:
         return out, st
 
     # ---------- recorder ----------
-    def record(self, exe, behfile, tracefile, timeout=1800, env=None, args=()):
+    def record(self, exe, behfile, tracefile, timeout=1800, env=None, args=(), parallel=1):
+        """run the recorder; parallel > 1 splits the behaviour file at reset lines over several recorder processes
+        (behaviour indexes stay global through HWV_BEH_BASE) and concatenates the traces in order"""
         e = {"HWLOC_HIDE_ERRORS": "2"}
         if env:
             e.update(env)
-        rc, out = run([exe, behfile, tracefile] + list(args), timeout=timeout, env=e)
-        if rc != 0:
-            raise Infra("recorder failed rc=%d: %s" % (rc, out[-2000:]))
-        return out
+        log("[%6.1fs] recording %s" % (time.time() - self.t0, os.path.basename(behfile)))
+        if parallel <= 1:
+            rc, out = run([exe, behfile, tracefile] + list(args), timeout=timeout, env=e)
+            if rc != 0:
+                raise Infra("recorder failed rc=%d: %s" % (rc, out[-2000:]))
+            return out
+        behs, cur = [], []
+        for line in open(behfile):
+            if line.startswith("reset") and cur:
+                behs.append("".join(cur))
+                cur = []
+            cur.append(line)
+        if cur:
+            behs.append("".join(cur))
+        n = max(1, min(parallel, len(behs)))
+        per = (len(behs) + n - 1) // n
+        jobs = []
+        for k in range(n):
+            part = behs[k * per:(k + 1) * per]
+            if not part:
+                continue
+            bp, tp = "%s.part%d" % (behfile, k), "%s.part%d" % (tracefile, k)
+            open(bp, "w").write("".join(part))
+            jobs.append((bp, tp, k * per))
+
+        def one(j):
+            ee = dict(e)
+            ee["HWV_BEH_BASE"] = str(j[2])
+            return run([exe, j[0], j[1]] + list(args), timeout=timeout, env=ee)
+        with cf.ThreadPoolExecutor(max_workers=n) as ex:
+            res = list(ex.map(one, jobs))
+        for (rc, out), j in zip(res, jobs):
+            if rc != 0:
+                raise Infra("recorder failed rc=%d on %s: %s" % (rc, j[0], out[-2000:]))
+        with open(tracefile, "w") as fo:
+            for bp, tp, _ in jobs:
+                with open(tp) as fi:
+                    shutil.copyfileobj(fi, fo)
+                os.unlink(tp)
+                os.unlink(bp)
+        return ""
 
     # ---------- trace validation ----------
     def validate(self, module, tracefile, cfg=None, nshards=NCPU, timeout=1800, max_rej=8, heap="3g"):
@@ -152,6 +192,7 @@ class Ctx:
                 shutil.copy(os.path.join(SPEC, f), d)
         open(os.path.join(d, module + ".cfg"), "w").write(cfg)
         shards = split_trace(tracefile, d, nshards)
+        log("[%6.1fs] validating %s (%.1f MB, %d shards) against %s" % (time.time() - self.t0, os.path.basename(tracefile), os.path.getsize(tracefile) / 1e6, len(shards), module))
         rejs = []
         with cf.ThreadPoolExecutor(max_workers=NCPU) as ex:
             futs = [ex.submit(self._validate_shard, d, module, s, timeout, max_rej, heap) for s in shards]
